@@ -82,6 +82,26 @@ fn rk(op: &str, a: Decimal, b: Decimal) -> String {
 #[cfg(not(feature = "rkyv"))]
 fn rk(_op: &str, _a: Decimal, _b: Decimal) -> String { "BADOP".into() }
 
+#[cfg(feature = "numtraits")]
+fn nt(op: &str, a: Decimal, b: Decimal, s: &str, n: i32) -> String {
+    use num_traits::{Num, One, Signed, Zero};
+    match op {
+        "nt_is_zero" => format!("B:{}", Zero::is_zero(&a) as u8),
+        "nt_is_one" => format!("B:{}", One::is_one(&a) as u8),
+        "nt_zero" => d(<Decimal as Zero>::zero()),
+        "nt_one" => d(<Decimal as One>::one()),
+        "nt_abs" => d(Signed::abs(&a)),
+        "nt_signum" => d(Signed::signum(&a)),
+        "nt_is_positive" => format!("B:{}", Signed::is_positive(&a) as u8),
+        "nt_is_negative" => format!("B:{}", Signed::is_negative(&a) as u8),
+        "nt_abs_sub" => d(Signed::abs_sub(&a, &b)),
+        "nt_from_str_radix" => match <Decimal as Num>::from_str_radix(s, n as u32) { Ok(v) => d(v), Err(e) => format!("ERR:{:?}", e) },
+        _ => "BADOP".into(),
+    }
+}
+#[cfg(not(feature = "numtraits"))]
+fn nt(_op: &str, _a: Decimal, _b: Decimal, _s: &str, _n: i32) -> String { "BADOP".into() }
+
 #[cfg(feature = "serde")]
 fn sd(op: &str, a: Decimal) -> String {
     match op {
@@ -152,6 +172,12 @@ fn run(op: &str, l: &V, r: &V, n: i32, prec: Option<usize>) -> String {
         "try_from_string" => match l { V::S(s) => match Decimal::try_from(s.clone()) { Ok(v) => d(v), Err(e) => format!("ERR:{:?}", e) }, _ => "BADARG".into() },
         "parse" => match l { V::S(s) => match s.parse::<Decimal>() { Ok(v) => d(v), Err(e) => format!("ERR:{:?}", e) }, _ => "BADARG".into() },
         "from_u128" => match l { V::S(s) => match s.parse::<u128>() { Ok(u) => match Decimal::try_from(u) { Ok(v) => d(v), Err(e) => format!("ERR:{:?}", e) }, Err(_) => "BADARG".into() }, _ => "BADARG".into() },
+        o if o.starts_with("nt_") => {
+            let a = match l { V::D(a) => *a, _ => Decimal::ZERO };
+            let b = match r { V::D(b) => *b, _ => Decimal::ZERO };
+            let s = match l { V::S(s) => s.clone(), _ => String::new() };
+            nt(o, a, b, &s, n)
+        }
         "add" => binop!(l, r, |a, b| d(a + b)),
         "sub" => binop!(l, r, |a, b| d(a - b)),
         "mul" => binop!(l, r, |a, b| d(a * b)),
